@@ -708,3 +708,74 @@ pub fn parts_family(b: &EbnfBound) -> Vec<Grammar> {
     });
     out
 }
+
+/// MARKERS: two marker/creation pairs `<1 .. 1>p`, `<2 .. 2>q` placed in every way into the gaps of a
+/// four-element sequence (each marker before its creation), including crossing pairs. Base 0: `x: A B C A`;
+/// base 1: `x: A y C A; y: B` (a rule node between the markers).
+pub fn markers_family(bases: &[usize]) -> Vec<Grammar> {
+    let ops = [
+        Rx::Marker(1),
+        Rx::Create(Some(1), Some("p".into())),
+        Rx::Marker(2),
+        Rx::Create(Some(2), Some("q".into())),
+    ];
+    // orders of the four operators with each marker before its creation
+    let mut orders: Vec<Vec<usize>> = vec![];
+    let idx = [0usize, 1, 2, 3];
+    fn perms(cur: &mut Vec<usize>, rest: &[usize], out: &mut Vec<Vec<usize>>) {
+        if rest.is_empty() {
+            out.push(cur.clone());
+            return;
+        }
+        for i in 0..rest.len() {
+            let mut r = rest.to_vec();
+            let x = r.remove(i);
+            cur.push(x);
+            perms(cur, &r, out);
+            cur.pop();
+        }
+    }
+    perms(&mut vec![], &idx, &mut orders);
+    orders.retain(|o| {
+        let pos = |x: usize| o.iter().position(|y| *y == x).unwrap();
+        pos(0) < pos(1) && pos(2) < pos(3)
+    });
+    let mut out = vec![];
+    for &base in bases {
+        let elems: Vec<Rx> = if base == 0 {
+            vec![tok(0), tok(1), tok(2), tok(0)]
+        } else {
+            vec![tok(0), rf(2), tok(2), tok(0)]
+        };
+        let n = elems.len();
+        for order in &orders {
+            // non-decreasing gap sequence g0<=g1<=g2<=g3 in 0..=n
+            for g0 in 0..=n {
+                for g1 in g0..=n {
+                    for g2 in g1..=n {
+                        for g3 in g2..=n {
+                            let gaps = [g0, g1, g2, g3];
+                            let mut body = vec![];
+                            for pos in 0..=n {
+                                for (k, o) in order.iter().enumerate() {
+                                    if gaps[k] == pos {
+                                        body.push(ops[*o].clone());
+                                    }
+                                }
+                                if pos < n {
+                                    body.push(elems[pos].clone());
+                                }
+                            }
+                            let mut rules = vec![("s", false, Some(rf(1))), ("x", false, Some(cat(body)))];
+                            if base == 1 {
+                                rules.push(("y", false, Some(tok(1))));
+                            }
+                            out.push(grammar(3, rules));
+                        }
+                    }
+                }
+            }
+        }
+    }
+    out
+}
